@@ -257,6 +257,10 @@ def run(ctx):
         try:
             term, replay, d2r = one_case(ctx, spec, idx)
         except Exception as e:  # creation of a valid input must not raise
+            if (isinstance(e, ValueError) and spec["mode"] == "centers" and spec["n"] < spec["ncent"] and ("contains no data" in str(e) or "patch centers and patch IDs with data do not match" in str(e))):
+                # fewer records than given centres: some centre is empty and creation must refuse (C09/C12)
+                ctx.bump("skipped_fewer_records_than_centres")
+                continue
             import traceback
             ctx.count(key=tuple(sorted(spec.items())), kind="raised")
             ctx.fail("c02-raises:%s" % type(e).__name__,
